@@ -42,10 +42,12 @@ class RCBase(Contract):
     def extra_cases(self, tier):
         return [{}]
 
+    thorough_task_sets = (("Fm", "Vm", "Fo"), ("Vo", "Vo"), ("Zm", "Fm"))
+
     def cases(self, tier):
         out = []
         for wk in self.worker_kinds:
-            for ts in self.task_sets:
+            for ts in tuple(self.task_sets) + (tuple(self.thorough_task_sets) if tier == "thorough" else ()):
                 for extra in self.extra_cases(tier):
                     out.append(dict(res=wk, ts=ts, **extra))
         return out
@@ -285,6 +287,7 @@ class ResourcePeriodicallyUnavailable(RCBase):
     worker_kinds = ("worker", "cumulative")
     bounded = "period in {3,5,7} (quick) / {2..7,10} (thorough), one interval per period, 1..2 tasks; other integers symbolic"
     task_sets = (("Fm",), ("Fo",), ("Vm",), ("Fm", "Vo"))
+    thorough_task_sets = ()
 
     def extra_cases(self, tier):
         periods = (3, 5, 7) if tier == "quick" else (2, 3, 4, 5, 6, 7, 10)
@@ -338,6 +341,11 @@ class ResourcePeriodicallyUnavailable(RCBase):
 
     def complete_enabled(self, case):
         return False  # the encoding is deliberately conservative w.r.t. the activity range; only soundness is claimed
+
+    def clauses(self, P, ctx, case):
+        if case["res"] != "worker":
+            return super().clauses(P, ctx, case)
+        return super().clauses(P, ctx, case) + left_out_clauses(self, P, ctx, case)
 
 
 # ------------------------------------------------------------------------------ workload
@@ -502,7 +510,8 @@ class ResourceInterrupted(RCBase):
 class ResourcePeriodicallyInterrupted(RCBase):
     target = "resource_constraint.ResourcePeriodicallyInterrupted.__init__"
     bounded = "period in {4,6} (quick) / {3..7} (thorough), one interruption per period, one task; other integers symbolic"
-    task_sets = (("Fm",), ("Fo",), ("Vm",))
+    task_sets = (("Fm",), ("Fo",), ("Vm",), ("Vo",))
+    thorough_task_sets = ()
 
     def extra_cases(self, tier):
         periods = (4, 6) if tier == "quick" else (3, 4, 5, 6, 7)
@@ -535,6 +544,28 @@ class ResourcePeriodicallyInterrupted(RCBase):
 
     def complete_enabled(self, case):
         return False
+
+    def clauses(self, P, ctx, case):
+        return super().clauses(P, ctx, case) + left_out_clauses(self, P, ctx, case)
+
+
+def left_out_clauses(self, P, ctx, case):
+    if True:
+        out = []
+        # an optional task can be left out whatever the pattern (witness: its parking point)
+        A = asserted(ctx["solver"])
+        pb = ctx["pb"]
+        hz, H = pb._horizon, pb.horizon
+        for t in ctx["tasks"]:
+            if t.optional and len(ctx["tasks"]) == 1:
+                pp = z3.IntVal(spec.past_point(t))
+                bs, be = busy(ctx["res"], t)
+                wit = [(t._start, pp), (t._end, pp), (bs, pp), (be, pp)]
+                if hasattr(t, "_duration"):
+                    wit.append((t._duration, z3.IntVal(0)))
+                goal = z3.substitute(And(*A), *wit)
+                out.append(Clause("complete[an optional task can be left out]", goal, hyps=[Not(spec.sched(t)), hz >= 0, hz <= T(H)], props=("C05",), kind="complete", bounded=self.bounded))
+        return out
 
 
 # ------------------------------------------------------------------------------ selections
